@@ -196,7 +196,7 @@ const FLAG_GROUPS: &[&[&str]] = &[
 ];
 
 impl Lib {
-    fn normalise(&mut self) {
+    pub fn normalise(&mut self) {
         if self.structs.is_empty() {
             self.structs.push(StructDef { fields: vec![SField::Sc(Sc::Int)], is_union: false });
         }
@@ -266,14 +266,14 @@ impl Lib {
         }
     }
 
-    fn sname(&self, k: usize) -> String {
+    pub fn sname(&self, k: usize) -> String {
         format!("{}{k}", if self.structs[k].is_union { "U" } else { "S" })
     }
-    fn stype(&self, k: usize) -> String {
+    pub fn stype(&self, k: usize) -> String {
         format!("{} {}", if self.structs[k].is_union { "union" } else { "struct" }, self.sname(k))
     }
     /// (C access path suffix, Rust access path suffix, scalar) of every leaf of struct k
-    fn leaves(&self, k: usize) -> Vec<(String, Sc)> {
+    pub fn leaves(&self, k: usize) -> Vec<(String, Sc)> {
         let mut v = vec![];
         let s = &self.structs[k];
         for (i, f) in s.fields.iter().enumerate() {
@@ -297,13 +297,13 @@ impl Lib {
         }
         v
     }
-    fn fname(&self, k: usize) -> String {
+    pub fn fname(&self, k: usize) -> String {
         match self.funcs[k].awkward_name {
             Some(a) => AWKWARD_NAMES[a as usize % AWKWARD_NAMES.len()].to_string(),
             None => format!("f{k}"),
         }
     }
-    fn pname(&self, f: &Func, i: usize) -> String {
+    pub fn pname(&self, f: &Func, i: usize) -> String {
         if f.keyword_params {
             KEYWORD_PARAMS[i % KEYWORD_PARAMS.len()].to_string()
         } else {
@@ -335,7 +335,7 @@ impl Lib {
             RTy::Ptr => "const int *".into(),
         }
     }
-    fn proto(&self, k: usize) -> String {
+    pub fn proto(&self, k: usize) -> String {
         let f = &self.funcs[k];
         let mut ps: Vec<String> = f.params.iter().enumerate().map(|(i, p)| self.c_param(f, i, p)).collect();
         if f.variadic.is_some() {
@@ -347,46 +347,12 @@ impl Lib {
         format!("{}{} {}({})", if f.noreturn { "__attribute__((noreturn)) " } else { "" }, self.c_ret(&f.ret), self.fname(k), ps.join(", "))
     }
 
-    pub fn header(&self) -> String {
-        let mut s = String::from("#ifndef LIB_H\n#define LIB_H\nenum Color { RED, GREEN = 5, BLUE = -2 };\n");
-        for sc in Sc::ALL {
-            s.push_str(&format!("typedef {} td_{};\n", sc.c(), sc.c().replace(' ', "_")));
-        }
-        for (k, st) in self.structs.iter().enumerate() {
-            s.push_str(&format!("{} {{\n", self.stype(k)));
-            for (i, f) in st.fields.iter().enumerate() {
-                match f {
-                    SField::Sc(sc) => s.push_str(&format!("  {} m{i};\n", sc.c())),
-                    SField::Arr(sc, n) => s.push_str(&format!("  {} m{i}[{n}];\n", sc.c())),
-                    SField::Nested(t) => s.push_str(&format!("  {} m{i};\n", self.stype(*t as usize))),
-                }
-            }
-            s.push_str("};\n");
-        }
-        s.push_str(&format!("extern unsigned long long g_digest[{}];\nextern int g_static_int;\n", self.funcs.len().max(1)));
-        for (k, (sc, is_const)) in self.globals.iter().enumerate() {
-            s.push_str(&format!("extern {}{} gv{k};\n{} read_gv{k}(void);\n", if *is_const { "const " } else { "" }, sc.c(), sc.c()));
-        }
-        for k in 0..self.funcs.len() {
-            s.push_str(&self.proto(k));
-            s.push_str(";\n");
-        }
-        s.push_str("#endif\n");
-        s
-    }
 
-    pub fn c_source(&self) -> String {
-        let mut s = String::from("#include \"lib.h\"\n#include <stdarg.h>\n#include <string.h>\n#include <stdlib.h>\n");
-        s.push_str("static unsigned long long step(unsigned long long h, unsigned long long v) { return (h ^ v) * 1099511628211ULL; }\n");
-        s.push_str("static unsigned long long fbits(float f) { unsigned int u; memcpy(&u, &f, 4); return u; }\nstatic unsigned long long dbits(double d) { unsigned long long u; memcpy(&u, &d, 8); return u; }\n");
-        s.push_str(&format!("unsigned long long g_digest[{}];\nint g_static_int = 77;\n", self.funcs.len().max(1)));
-        for (k, (sc, is_const)) in self.globals.iter().enumerate() {
-            let init = sc.c_from(&format!("{}ULL", 0x1234_5678_9abc_def0u64.wrapping_mul(k as u64 + 3)));
-            // initialisers must be constant expressions: the formula only uses casts and arithmetic
-            s.push_str(&format!("{}{} gv{k} = {init};\n{} read_gv{k}(void) {{ return gv{k}; }}\n", if *is_const { "const " } else { "" }, sc.c(), sc.c()));
-        }
-        for (k, f) in self.funcs.iter().enumerate() {
-            s.push_str(&self.proto(k));
+    /// ` { .. }` of function k (folds arguments, stores the digest, builds the return value)
+    pub fn body(&self, k: usize) -> String {
+        let mut s = String::new();
+        {
+            let f = &self.funcs[k];
             s.push_str(&format!(" {{\n  unsigned long long h = 1469598103934665603ULL ^ {k}ULL;\n  const int *firstp = &g_static_int;\n"));
             for (i, p) in f.params.iter().enumerate() {
                 let n = self.pname(f, i);
@@ -431,19 +397,19 @@ impl Lib {
             }
             if let Some(nv) = f.variadic {
                 let last = self.pname(f, f.params.len() - 1);
-                s.push_str(&format!("  {{ va_list ap; va_start(ap, {last});\n"));
+                s.push_str(&format!("  {{ __builtin_va_list ap; __builtin_va_start(ap, {last});\n"));
                 for j in 0..nv {
                     match j % 3 {
-                        0 => s.push_str("    h = step(h, (unsigned long long)(long long)va_arg(ap, int));\n"),
-                        1 => s.push_str("    h = step(h, dbits(va_arg(ap, double)));\n"),
-                        _ => s.push_str("    h = step(h, (unsigned long long)va_arg(ap, long long));\n"),
+                        0 => s.push_str("    h = step(h, (unsigned long long)(long long)__builtin_va_arg(ap, int));\n"),
+                        1 => s.push_str("    h = step(h, dbits(__builtin_va_arg(ap, double)));\n"),
+                        _ => s.push_str("    h = step(h, (unsigned long long)__builtin_va_arg(ap, long long));\n"),
                     }
                 }
-                s.push_str("    va_end(ap); }\n");
+                s.push_str("    __builtin_va_end(ap); }\n");
             }
             s.push_str(&format!("  g_digest[{k}] = h;\n"));
             if f.noreturn {
-                s.push_str("  exit(0);\n");
+                s.push_str("  __builtin_trap();\n");
             }
             match &f.ret {
                 RTy::Void => {}
@@ -451,7 +417,7 @@ impl Lib {
                 RTy::Enum => s.push_str("  return (h & 1) ? GREEN : BLUE;\n"),
                 RTy::Ptr => s.push_str("  return firstp;\n"),
                 RTy::Struct(t) => {
-                    s.push_str(&format!("  {} r; memset(&r, 0, sizeof r);\n", self.stype(*t as usize)));
+                    s.push_str(&format!("  {} r; __builtin_memset(&r, 0, sizeof r);\n", self.stype(*t as usize)));
                     for (j, (path, sc)) in self.leaves(*t as usize).iter().enumerate() {
                         s.push_str(&format!("  r{path} = {};\n", sc.c_from(&format!("(h + {j}ULL * 0x9E3779B97F4A7C15ULL)"))));
                     }
@@ -462,9 +428,56 @@ impl Lib {
         }
         s
     }
+
+    /// preamble of every translation unit that contains function bodies
+    pub const HELPERS: &'static str = "#define step(h, v) (((unsigned long long)(h) ^ (unsigned long long)(v)) * 1099511628211ULL)\n#define fbits(f) ((unsigned long long)__builtin_bit_cast(unsigned int, (float)(f)))\n#define dbits(d) (__builtin_bit_cast(unsigned long long, (double)(d)))\n";
+
+    pub fn header(&self) -> String {
+        let mut s = String::from("#ifndef LIB_H\n#define LIB_H\nenum Color { RED, GREEN = 5, BLUE = -2 };\n");
+        for sc in Sc::ALL {
+            s.push_str(&format!("typedef {} td_{};\n", sc.c(), sc.c().replace(' ', "_")));
+        }
+        for (k, st) in self.structs.iter().enumerate() {
+            s.push_str(&format!("{} {{\n", self.stype(k)));
+            for (i, f) in st.fields.iter().enumerate() {
+                match f {
+                    SField::Sc(sc) => s.push_str(&format!("  {} m{i};\n", sc.c())),
+                    SField::Arr(sc, n) => s.push_str(&format!("  {} m{i}[{n}];\n", sc.c())),
+                    SField::Nested(t) => s.push_str(&format!("  {} m{i};\n", self.stype(*t as usize))),
+                }
+            }
+            s.push_str("};\n");
+        }
+        s.push_str(&format!("extern unsigned long long g_digest[{}];\nextern int g_static_int;\n", self.funcs.len().max(1)));
+        for (k, (sc, is_const)) in self.globals.iter().enumerate() {
+            s.push_str(&format!("extern {}{} gv{k};\n{} read_gv{k}(void);\n", if *is_const { "const " } else { "" }, sc.c(), sc.c()));
+        }
+        for k in 0..self.funcs.len() {
+            s.push_str(&self.proto(k));
+            s.push_str(";\n");
+        }
+        s.push_str("#endif\n");
+        s
+    }
+
+    pub fn c_source(&self) -> String {
+        let mut s = String::from("#include \"lib.h\"\n#include <stdarg.h>\n#include <string.h>\n#include <stdlib.h>\n");
+        s.push_str(Self::HELPERS);
+        s.push_str(&format!("unsigned long long g_digest[{}];\nint g_static_int = 77;\n", self.funcs.len().max(1)));
+        for (k, (sc, is_const)) in self.globals.iter().enumerate() {
+            let init = sc.c_from(&format!("{}ULL", 0x1234_5678_9abc_def0u64.wrapping_mul(k as u64 + 3)));
+            // initialisers must be constant expressions: the formula only uses casts and arithmetic
+            s.push_str(&format!("{}{} gv{k} = {init};\n{} read_gv{k}(void) {{ return gv{k}; }}\n", if *is_const { "const " } else { "" }, sc.c(), sc.c()));
+        }
+        for k in 0..self.funcs.len() {
+            s.push_str(&self.proto(k));
+            s.push_str(&self.body(k));
+        }
+        s
+    }
 }
 
-fn lib_strategy() -> BoxedStrategy<Lib> {
+pub fn lib_strategy() -> BoxedStrategy<Lib> {
     let sc = (0..Sc::ALL.len()).prop_map(|i| Sc::ALL[i]);
     let sfield = prop_oneof![6 => sc.clone().prop_map(SField::Sc), 2 => (sc.clone(), 0u8..6).prop_map(|(s, n)| SField::Arr(s, n)), 2 => any::<u16>().prop_map(SField::Nested)];
     let sdef = (proptest::collection::vec(sfield, 1..7), proptest::bool::weighted(0.12)).prop_map(|(fields, is_union)| StructDef { fields, is_union });
@@ -512,7 +525,7 @@ fn word(state: &mut u64) -> u64 {
     }
 }
 
-fn find_fn<'a>(inv: &'a Inventory, c_name: &str) -> Option<&'a Item> {
+pub fn find_fn<'a>(inv: &'a Inventory, c_name: &str) -> Option<&'a Item> {
     // by link_name first (that is the symbol the binding refers to), then by name
     let ln = format!("link_name = \"\\u{{1}}{c_name}\"");
     let ln2 = format!("link_name = \"{c_name}\"");
@@ -534,7 +547,12 @@ fn type_name(inv: &Inventory, base: &str, is_union: bool) -> String {
 
 impl C04 {
     /// Rust caller source; returns (source, number of checks it performs)
-    fn caller(&self, lib: &Lib, inv: &Inventory, seed: u64, cb_abi: &str, problems: &mut Vec<(String, String)>) -> String {
+    pub fn caller(&self, lib: &Lib, inv: &Inventory, seed: u64, cb_abi: &str, problems: &mut Vec<(String, String)>) -> String {
+        self.caller_subset(lib, inv, seed, cb_abi, &(0..lib.funcs.len()).collect::<Vec<_>>(), problems)
+    }
+
+    /// the caller restricted to the functions `only`
+    pub fn caller_subset(&self, lib: &Lib, inv: &Inventory, seed: u64, cb_abi: &str, only: &[usize], problems: &mut Vec<(String, String)>) -> String {
         let mut s = format!("#![allow(warnings)]\ninclude!(\"b.rs\");\nfn step(h: u64, v: u64) -> u64 {{ (h ^ v).wrapping_mul(1099511628211) }}\nextern \"{cb_abi}\" fn the_cb(a: ::std::os::raw::c_int, b: f64) -> ::std::os::raw::c_int {{ a.wrapping_mul(3).wrapping_add(b as ::std::os::raw::c_int) }}\n");
         s.push_str(&format!("unsafe extern \"{cb_abi}\" fn the_cb_u(a: ::std::os::raw::c_int, b: f64) -> ::std::os::raw::c_int {{ the_cb(a, b) }}\nextern \"{cb_abi}\" fn the_factory(k: ::std::os::raw::c_int) -> Option<unsafe extern \"{cb_abi}\" fn(::std::os::raw::c_int, f64) -> ::std::os::raw::c_int> {{ if k == 7 {{ Some(the_cb_u) }} else {{ None }} }}\n"));
         let _unused = String::from("extern \"C\" fn the_cb_unused(a: ::std::os::raw::c_int, b: f64) -> ::std::os::raw::c_int { a.wrapping_mul(3).wrapping_add(b as ::std::os::raw::c_int) }\n");
@@ -569,6 +587,9 @@ impl C04 {
         }
         // functions
         for (k, f) in lib.funcs.iter().enumerate() {
+            if !only.contains(&k) {
+                continue;
+            }
             let cname = lib.fname(k);
             let Some(item) = find_fn(inv, &cname) else {
                 problems.push(("binding-missing/function".into(), format!("no binding for function `{cname}`: {}", lib.proto(k))));
